@@ -50,6 +50,13 @@ FALSE_ALARMS = [
     ('C16', 'oracle', 'spaced mode: the oracle sliced rows without the blank separator lines; negative widths are clamped by the renderer and by the model'),
     ('C18', 'model', 'positions of functions without an implementation in the model (NOFUNC) were compared; now filtered and counted as outside the model'),
     ('C19', 'oracle', 'CSV output of the CLI uses \\r\\n line ends; normalised before comparison; `.` alone dispatches to nothing'),
+    ('C01', 'model', 'found by the thorough tier on the unchanged tree after the case counts were raised: (a) CPython decimals have a signed zero (`-1 * 0.000` prints `-0.000`), the model\'s decimals do not - `str()` results are compared modulo the sign of a zero and the generator applies `str()` to columns and constants only; (b) `decimal(\'2E+1\')` is 20: the model\'s numeral parser now accepts exponents; (c) `date(y, m, d)` with an argument beyond a C int: the model returned NULL where the code raised OverflowError - here the CODE was at odds with its own intent (it turns ValueError into NULL): repaired by a `fix:` commit (§6.1), the model keeps NULL'),
+    ('C05', 'harness', 'a mutated text happened to read `FROM #`: every connection has the null table `\'\'`, which the harness did not define to the model (model: unknown table, code: accepted); now always defined'),
+    ('C06', 'model', 'TatSu\'s zero-or-more gather `\',\'.{expression}` accepts `f(, 1)` (when no expression stands first the repetition still takes `, expression`): the model rejected it; `dropLeadComma` added to the model, the round-trip proof adapted (printed arguments never start with a comma), a corpus of separator placements runs first'),
+    ('C09', 'harness', 'two statements of the ledger-history list were rejected by the unchanged tree (`meta` is no column of #accounts; PRINT cannot be executed through a cursor): both sides produced the same error string, so the cases were vacuous; corrected, and a rejected list statement is now a harness error'),
+    ('C12', 'oracle', 'totals that cancel exactly on one side leave a residue of the last digits (1e-27) on the other when a conversion divides: for `convert` / `value` such a position counts as absent; `units` / `cost` stay exact'),
+    ('C14', 'oracle', 'PRINT with a filter can print a sale without the purchase it reduces: the loader then refuses to book the reloaded text, which says nothing about PRINT; the printed text is now compared as written (parser level) always, and as loaded only when it books'),
+    ('C17', 'oracle', 'the conservation oracle identified columns by name; with two columns of one name (legal) it misreported: skipped there, the model comparison covers those tables'),
     ('run_check', 'infrastructure', 'theorem names containing `\'` broke the audit regex; a `signatures` list was added for findings with several signatures; stale replays are cleared at the start of a run; the driver must flush after every line'),
 ]
 
